@@ -325,6 +325,10 @@ class ModuleFinder:
             if not py_file:
                 # `.py[cod]` and `.so` files look like `name.cpython-38-x86_64-linux-gnu.ext`.
                 stem = stem.split(".", 1)[0]
+                if not stem:
+                    # Hidden files such as `.name.pyi` do not name a module.
+                    logger.debug("Skip %s, it has no module name", subpath)
+                    continue
             if stem == "__init__":
                 # Optimization: since it's a relative path, if it has only one part
                 # and is named __init__, it means it's the starting path
